@@ -33,6 +33,7 @@ from wavespectra.core.attributes import attrs, set_spec_attributes
 from wavespectra.core.utils import (
     D2R,
     R2D,
+    angle,
     celerity,
     wavenuma,
     wavelen,
@@ -52,10 +53,6 @@ class SpecArray(object):
     def __init__(self, xarray_obj):
         """Initialise spec accessor."""
         self._obj = xarray_obj
-
-        # These are set when property is first called to avoid computing more than once
-        self._df = None
-        self._dd = None
 
     def __repr__(self):
         return re.sub(r"<([^\s]+)", "<%s" % (self.__class__.__name__), str(self._obj))
@@ -94,13 +91,10 @@ class SpecArray(object):
     @property
     def dd(self):
         """Direction resolution float."""
-        if self._dd is not None:
-            return self._dd
         if self.dir is not None and len(self.dir) > 1:
-            self._dd = abs(float(self.dir[1] - self.dir[0]))
+            return float(angle(self.dir[1], self.dir[0]))
         else:
-            self._dd = 1.0
-        return self._dd
+            return 1.0
 
     @property
     def partition(self):
